@@ -23,6 +23,7 @@ import zlib
 from vcore import Infra, pyres
 
 TESTDATA = "/repo/tests/nxpimage/data"
+FINDING_MISDETECT = "C14-later-start-misdetected"
 APP_PARSERS = ("SegmentMbi", "SegmentHab", "SegmentAhab", "SegmentSB21", "SegmentSB31")
 
 
@@ -327,8 +328,8 @@ def run_case(T, F, case, rowinfo, full_cache):
     fails = []
     res = {"toks": None, "blobs": {}, "merge": None, "parse": None, "fails": fails, "cls": None, "nontrivial": True}
 
-    def fail(what, observed=None, expected=None):
-        fails.append((what, observed, expected))
+    def fail(what, observed=None, expected=None, finding=None):
+        fails.append((what, observed, expected, finding))
 
     # ---- configuration
     cfg = {"family": fam, "revision": rev, "memory_type": mt}
@@ -461,8 +462,14 @@ def run_case(T, F, case, rowinfo, full_cache):
         else:
             found.append("-")
     res["parse"] = f"P:{pb.init_offset};{','.join(found)}"
+    # known finding: an image that starts later, read with an EARLIER init offset, can be acceptable to the unvalidated raw
+    # segments and the lenient MBI parser; the earlier trial then wins (only for MBI rows, only when an earlier offset is reported)
+    finding = None
+    if 0 < init and pb.init_offset < init and any(kd["parser"] == "SegmentMbi" for kd, _ in segs):
+        finding = FINDING_MISDETECT
+        res["finding"] = finding
     if pb.init_offset != init:
-        fail("parse detects a different init offset than the image was exported with", pb.init_offset, init)
+        fail("parse detects a different init offset than the image was exported with", pb.init_offset, init, finding)
     for kd, o, raw in present:
         ps = pb._segments[[k["label"] for k, _ in segs].index(kd["label"])]
         got = ps.export() if not ps.excluded else b""
@@ -473,7 +480,7 @@ def run_case(T, F, case, rowinfo, full_cache):
         else:
             ok = got == raw
         if not ok:
-            fail(f"parse does not recover the bytes of segment {kd['label']}", (len(got), got[:16].hex()), (len(raw), raw[:16].hex()))
+            fail(f"parse does not recover the bytes of segment {kd['label']}", (len(got), got[:16].hex()), (len(raw), raw[:16].hex()), finding)
     return res
 
 
@@ -501,7 +508,7 @@ def _worker(task):
                 import traceback
                 r = {"toks": None, "blobs": {}, "merge": None, "parse": None, "cls": "harness-exception", "nontrivial": True,
                      "fails": [("unexpected exception while evaluating the case on the implementation",
-                                f"{type(exc).__name__}: {exc}", traceback.format_exc()[-600:])]}
+                                f"{type(exc).__name__}: {exc}", traceback.format_exc()[-600:], None)]}
             r["case"] = case
             r["layout"] = rowinfo["layout"]
             r["fcb"] = rowinfo["fcb_supported"]
@@ -533,28 +540,30 @@ def feed(ck, s, drv, T, results):
             if r.get("skip"):
                 ck.extra.setdefault("payload_unavailable", []).append(r["skip"])
                 continue
-            for what, obs, exp in r["fails"]:
-                s.expect(False, case, what, obs, exp)
+            for what, obs, exp, finding in r["fails"]:
+                s.expect(False, case, what, obs, exp, finding=finding)
             if drv is None or r["toks"] is None or r["merge"] is None:
                 continue
             for bid, data in r["blobs"].items():
                 if bid not in defined:
                     defined.add(bid)
-                    reqs.append((None, f"blob {bid} {data.hex()}", "ok"))
+                    reqs.append((None, f"blob {bid} {data.hex()}", "ok", False))
             init = case["init"]
             if isinstance(init, str):
                 kidx = next(i for i, k in enumerate(T.kinds) if k["label"] == init[5:])
                 seg_off = next((off for kd, off in T.segs({"layout": r["layout"]}) if kd["label"] == init[5:]), None)
-                reqs.append((case, f"initk {r['layout']} {kidx}", None))
+                reqs.append((case, f"initk {r['layout']} {kidx}", None, False))
                 init = seg_off if seg_off is not None else 0
             real = r["merge"] + ("|" + r["parse"] if r["parse"] is not None else "")
-            reqs.append((case, f"rt {r['layout']} {int(r['fcb'])} {init} {' '.join(r['toks'])}", real))
+            reqs.append((case, f"rt {r['layout']} {int(r['fcb'])} {init} {' '.join(r['toks'])}", real, bool(r.get("finding"))))
     if drv is not None and reqs:
-        for (case, line, real), ans in zip(reqs, drv.batch([q[1] for q in reqs])):
+        for (case, line, real, merge_only), ans in zip(reqs, drv.batch([q[1] for q in reqs])):
             if case is None:
                 if ans != "ok":
                     raise Infra("model driver refused a blob definition")
             elif real is not None:
+                if "|" not in real or merge_only:   # no parse on the real side (inadmissible start / known finding): merge part only
+                    real, ans = real.split("|")[0], ans.split("|")[0]
                 s.compare(case, real, ans)
 
 
